@@ -142,7 +142,7 @@ def main():
             "guard": "PDPY11_VERIF",
             "enable": "environment variable PDPY11_VERIF=1 at import time of pdpy11.compiler (set by ./check); pure Python, nothing to build",
             "baseline_off_cmd": "cd /repo && env -u PDPY11_VERIF /venv/bin/python -m pytest -ra -q -p no:cacheprovider --timeout=900 --continue-on-collection-errors",
-            "source_commits": ["32dc7db"],
+            "source_commits": ["32dc7db", "b95f956"],
             "add_only": True,
         },
         "engines": [{"name": n, "path": f"/verif/spec/{n}.tla", "serves_properties": sorted(p),
